@@ -24,3 +24,15 @@ Theorem C11_lex_order_is_strict :
   forall L x y z, ~ lex_lt L x x /\ (lex_lt L x y -> lex_lt L y z -> lex_lt L x z).
 Proof. intros L x y z. split; [apply lex_lt_irrefl|apply lex_lt_trans]. Qed.
 Print Assumptions C11_lex_order_is_strict.
+
+(** node counts: the collection whose length is the node count holds every
+    distinct non-terminal sub-diagram of the edge exactly once; the edge count
+    sums their non-transparent child slots *)
+Theorem C11_node_count_counts_distinct_subdiagrams : forall t,
+  NoDup (dedup (subnodes t)) /\
+  (forall s, In s (dedup (subnodes t)) <-> (subdiagram t s /\ exists k cs, s = N k cs)) /\
+  node_count t = length (dedup (subnodes t)).
+Proof.
+  intros t. destruct (counted_nodes_spec t) as [H1 H2]. split; [exact H1|]. split; [exact H2|reflexivity].
+Qed.
+Print Assumptions C11_node_count_counts_distinct_subdiagrams.
